@@ -812,6 +812,22 @@ func extJSONMarshal(fr *frame, args []value) (res value) {
 
 func init() {
 	externals["encoding/json.Marshal"] = extJSONMarshal
+	// (*Encoder).Encode(v): Marshal, a newline, one Write to the encoder's writer (HTML escaping
+	// on, no indentation: the defaults)
+	externals["(*encoding/json.Encoder).Encode"] = func(fr *frame, args []value) value {
+		r := extJSONMarshal(fr, args[1:2]).(tuple)
+		if e, ok := r[1].(iface); ok && e.t != nil {
+			return r[1]
+		}
+		enc := (*args[0].(*value)).(structure)
+		w := enc[0].(iface)
+		out := append(append([]value(nil), r[0].([]value)...), uint8('\n'))
+		wr := fr.callMethod(w, "Write", value(out))
+		if t, ok := wr.(tuple); ok && len(t) == 2 {
+			return t[1]
+		}
+		return nilError()
+	}
 	externals["encoding/json.MarshalIndent"] = func(fr *frame, args []value) value {
 		r := extJSONMarshal(fr, args[:1]).(tuple)
 		return r
